@@ -235,8 +235,43 @@ def _hoist_walrus(stmts):
     return n_done, out
 
 
+class _DropLocalAnnotations(ast.NodeTransformer):
+    """`x: int = e` inside a function is `x = e`; a bare `x: int` is
+    nothing at run time (annotations of locals are not evaluated)."""
+
+    def __init__(self):
+        self.n = 0
+        self.depth = 0
+
+    def visit_FunctionDef(self, node):
+        self.depth += 1
+        self.generic_visit(node)
+        self.depth -= 1
+        return node
+    visit_AsyncFunctionDef = visit_FunctionDef
+
+    def visit_ClassDef(self, node):
+        d, self.depth = self.depth, 0
+        self.generic_visit(node)
+        self.depth = d
+        return node
+
+    def visit_AnnAssign(self, node):
+        if not self.depth or not isinstance(node.target, ast.Name):
+            return node
+        self.n += 1
+        if node.value is None:
+            return ast.copy_location(ast.Pass(), node)
+        return ast.copy_location(ast.Assign(
+            targets=[node.target], value=node.value, type_comment=None),
+            node)
+
+
 def desugar_tree(tree):
     n_done = 0
+    ann = _DropLocalAnnotations()
+    ann.visit(tree)
+    n_done += ann.n
     for fn in [n for n in ast.walk(tree)
                if isinstance(n, (ast.FunctionDef, ast.AsyncFunctionDef))]:
         k, fn.body = _hoist_walrus(fn.body)
